@@ -4,7 +4,7 @@
    suites, not proved).  Only statements here; proofs live in Proofs/C36.v. *)
 From Coq Require Import List NArith ZArith Bool Lia String.
 From GoGit Require Import Base.Out Model.RefSpec Model.RevList Model.PushRules Model.FetchProto
-     Spec.ObjReach Proofs.C38 Proofs.C36.
+     Spec.ObjReach Proofs.C38 Proofs.C36 Proofs.C36Refspec.
 Import ListNotations.
 
 (* NegotiatePack terminates whatever the server acknowledges: against any
@@ -22,6 +22,17 @@ Proof.
   exists r, nc. split; [exact E | cbn in L; lia].
 Qed.
 Print Assumptions C36_terminates.
+
+(* refspec mapping is invertible: for a valid refspec s (whose destination does
+   not begin with '+') and a name n it matches, the reversed refspec matches
+   Dst(n) and maps it back to n — what pruneRemotes (fetch) and prune on push
+   rely on; it holds for forced refspecs since Reverse keeps the '+' in front
+   (repaired) *)
+Theorem C36_refspec_roundtrip : forall s n,
+  rs_valid s = true -> dst_plain s = true -> rs_match s n = true ->
+  rs_match (rs_reverse s) (rs_dst s n) = true /\ rs_dst (rs_reverse s) (rs_dst s n) = n.
+Proof. intros s n Hv Hp M. now apply roundtrip. Qed.
+Print Assumptions C36_refspec_roundtrip.
 
 (* getWants asks for every fetched reference value the client does not hold
    (and for all of them when the repository is shallow and the depth is not 1) *)
@@ -109,6 +120,14 @@ Example C36_local_name :
     = Some (s2b "refs/remotes/origin/main"%string) /\
   local_name (s2b "dev:devlocal"%string) (s2b "refs/heads/dev"%string) = Some (s2b "refs/heads/devlocal"%string).
 Proof. vm_compute. split; reflexivity. Qed.
+
+(* the default fetch refspec is valid, plain, and maps a branch there and back *)
+Example C36_roundtrip_default :
+  let s := s2b "+refs/heads/*:refs/remotes/origin/*"%string in
+  rs_valid s = true /\ dst_plain s = true /\ rs_match s (s2b "refs/heads/feat/x"%string) = true /\
+  rs_dst s (s2b "refs/heads/feat/x"%string) = s2b "refs/remotes/origin/feat/x"%string /\
+  rs_dst (rs_reverse s) (s2b "refs/remotes/origin/feat/x"%string) = s2b "refs/heads/feat/x"%string.
+Proof. vm_compute. repeat split; reflexivity. Qed.
 
 (* a linear history: depth 2 from commit 5 (5 -> 4 -> 3) gives the boundary {4} and the interior {5} *)
 Example C36_shallow_linear :
